@@ -585,7 +585,7 @@ func recordRPC(args []string) error {
 	}
 	defer srv.stop()
 	w.Emit(map[string]any{"ev": "Setup", "rows": rowsToJSON(rows)})
-	sweep := 0
+	sweep, gsweep := 0, 0
 	for i := 0; i < *n; i++ {
 		req := &proto.QueryRequest{}
 		for k := rng.Intn(4); k > 0; k-- {
@@ -607,6 +607,19 @@ func recordRPC(args []string) error {
 			}
 			sweep++
 			req.Queries = []*proto.Query{toPBQuery(dict, rpcQuery{E: e}, rng, true)}
+		}
+		if i%3 == 2 && gsweep <= 100 {
+			// systematic group-by widths: the 2-valued column repeated 0..70 times, then the 3-valued one 30..59 times
+			col, width := 2, gsweep
+			if gsweep > 70 {
+				col, width = 1, gsweep-41
+			}
+			gsweep++
+			q := rpcQuery{E: &HExpr{Op: "not", E: &HExpr{Op: "eq", Col: 1, Val: 2}}}
+			for j := 0; j < width; j++ {
+				q.GB = append(q.GB, col)
+			}
+			req.Queries = []*proto.Query{toPBQuery(dict, q, rng, true)}
 		}
 		if i%10 == 9 { // deep nesting
 			e := &proto.Query_Expression{Value: &proto.Query_Expression_Eq{Eq: &proto.Query_Expression_Equal{Column: dict.Col(1), Value: dict.Val(1)}}}
